@@ -1,2 +1,68 @@
-(* C13 — random generation is always valid, honours pinned fields, and is reproducible.  (in progress) *)
-From Schwifty Require Import Lib.Base Model.Data Model.Random.
+(* C13 — random generation is always valid, honours pinned fields, and is reproducible.
+   Statements only; proofs in Proofs/RandomGen.v (instantiation), Proofs/RandomFacts.v, Proofs/PlaceFacts.v.
+   The caller's generator and rstr are oracles of the model: the theorems quantify over everything they can return
+   (country index, bank index, the draws); "the draw matches the country's pattern" enters only as "its upper-cased
+   form is clean text". *)
+From Coq Require Import Lia ZArith List Bool.
+From Schwifty Require Import Lib.Base Lib.Lit Model.Clean Model.Data Model.Iban Model.Bban Model.Generate Model.Random.
+From Schwifty Require Import Spec.Iso13616 Proofs.CleanFacts Proofs.PlaceFacts Proofs.GenerateFacts Proofs.RandomGen.
+From Schwifty Require Import Gen.Env Gen.IbanData Gen.IbanCfg Gen.Banks.
+Import ListNotations.
+
+(* IBAN.random never returns an invalid object *)
+Theorem C13_valid : forall national cc0 reg pins ci bi draws s,
+  random_iban' national cc0 reg pins ci bi draws = Ok s -> iso_ok the_table s = true.
+Proof. exact gen_random_valid. Qed.
+
+(* of the requested country *)
+Theorem C13_country : forall cc0 reg pins ci bi draws cc b,
+  cc0 <> [] -> random_bban' cc0 reg pins ci bi draws = Ok (cc, b) -> cc = cc0.
+Proof. exact gen_random_country. Qed.
+
+(* the library errors of BBAN.random: the documented overflow error (or an unknown country) *)
+Theorem C13_errors : forall cc0 reg pins ci bi draws x,
+  random_bban' cc0 reg pins ci bi draws = Err x -> x = EGenerateRandomOverflow \/ x = EInvalidCountryCode.
+Proof. exact gen_random_errors. Qed.
+
+(* for a country with published positions, clean pins and clean draws: the BBAN has the country's length, is clean
+   text, and every pinned component of its field's width - other than the computed check-digit field - is unchanged *)
+Theorem C13_pins : forall cc0 reg pins ci bi draws cc b r ps,
+  random_bban' cc0 reg pins ci bi draws = Ok (cc, b) ->
+  find_row the_table cc = Some r -> r_positions r = Some ps ->
+  (forall k v, In (k, v) pins -> cleaned the_env v = true) ->
+  (forall d, In d draws -> cleaned the_env (upper the_env d) = true) ->
+  len b = r_bban_length r /\ cleaned the_env b = true /\
+  forall k v, assoc k pins = Some v -> In k the_components -> text_eqb k k_national = false -> len v = width r k ->
+  get_slice b (fst (rng r k)) (Some (snd (rng r k))) = v.
+Proof. exact gen_random_pins. Qed.
+
+Theorem C13_iban_pins : forall national cc0 reg pins ci bi draws s cc b r ps,
+  random_bban' cc0 reg pins ci bi draws = Ok (cc, b) ->
+  random_iban' national cc0 reg pins ci bi draws = Ok s ->
+  find_row the_table cc = Some r -> r_positions r = Some ps ->
+  (forall k v, In (k, v) pins -> cleaned the_env v = true) ->
+  (forall d, In d draws -> cleaned the_env (upper the_env d) = true) ->
+  iban_country_code s = cc /\ iban_bban the_env s = b /\
+  forall k v, assoc k pins = Some v -> In k the_components -> text_eqb k k_national = false -> len v = width r k ->
+  field r k s = v.
+Proof. exact gen_random_iban_pins. Qed.
+
+(* reproducibility: the model is a function of the arguments and of what the caller's generator and rstr returned;
+   nothing else (no hash order, no global state) enters.  The content of this statement is the correspondence check
+   (the same oracle outputs fed to model and implementation under several PYTHONHASHSEED values), not this lemma. *)
+Theorem C13_function_of_draws : forall national cc0 reg pins ci bi draws ci' bi' draws',
+  ci = ci' -> bi = bi' -> draws = draws' ->
+  random_iban' national cc0 reg pins ci bi draws = random_iban' national cc0 reg pins ci' bi' draws'.
+Proof. intros. subst. reflexivity. Qed.
+
+Print Assumptions C13_valid.
+Print Assumptions C13_country.
+Print Assumptions C13_errors.
+Print Assumptions C13_pins.
+Print Assumptions C13_iban_pins.
+
+From Coq Require Import String.
+Open Scope list_scope.
+Example C13_ex :
+  random_bban' (tx "DE") false [(k_bank, tx "37040044")] 0 0 [tx "123456780532013000"] = Ok (tx "DE", tx "370400440532013000").
+Proof. vm_compute. reflexivity. Qed.
